@@ -173,6 +173,8 @@ def _hist_worker(cfg):
                 exp_log = expected_log(h, st.views, subs)
                 if impl['log'] != exp_log and d_or is None:
                     d_or = 'invocation log: ' + first_log_diff(impl['log'], exp_log)
+            if impl.get('early') and d_or is None:
+                d_or = 'a property subscriber is called while the entity does not yet hold the value it is told about: %s' % json.dumps(impl['early'][:3])
             if impl.get('hang'):
                 d_or = 'the implementation does not terminate on this history (CPU-time limit of the harness reached)'
             if d_or is None and not any(m.get('expect_error') or m.get('garbage') for _, _, m in h.packets):
